@@ -43,6 +43,21 @@ def _exp_arg(t: T) -> Optional[T]:
     return a[0] if a else None
 
 
+def _by_role(bound: dict, step) -> Optional[tuple]:
+    from ..symex import sym as _sym
+    other = [q.name for q in step.params if q.name not in ("self", "trial", "ham_data", "prop_data", "wave_data")]
+    if len(other) != 1:
+        return None
+    fsym = _sym(other[0])
+    pd_w = getitem(_sym("prop_data"), const("walkers"))
+    wv = [v for v in bound.values() if strip_wrappers(v) is pd_w or any(x is pd_w for x in subterms(v))
+          and not any(x is fsym for x in subterms(v))]
+    fv = [v for v in bound.values() if any(x is fsym for x in subterms(v))]
+    if len(wv) == 1 and len(fv) == 1:
+        return wv[0], fv[0]
+    return None
+
+
 def _split_ratio(t: T):
     """exp(X) * num / den  (any association) -> (X, num, den)"""
     t = strip_wrappers(t)
@@ -123,6 +138,10 @@ def run(ctx):
                 b_ = run_.ev.call_binding(wn, None, cls=P if "." in P else "propagation." + P)
                 if b_ is not None and "walkers" in b_ and "fields" in b_:
                     w_old, shifted = b_["walkers"], b_["fields"]
+                elif b_ is not None and _by_role(b_, base) is not None:
+                    # parameters of the Trotter step under other names: the walkers are the argument read from
+                    # prop_data['walkers'], the fields the argument that depends on the step's own field parameter
+                    w_old, shifted = _by_role(b_, base)
                 else:
                     w_old = pos[1] if len(pos) > 1 else None
                     shifted = pos[2] if len(pos) > 2 else None
